@@ -1,6 +1,6 @@
 (* Entry points of the extracted model: one number per model function. *)
 From Coq Require Import ZArith List.
-From Tdda Require Import Base.Sexp RefTest.Argv RefTest.Tagged Serial.DateFmt RefTest.CheckStrings RefTest.Artefacts RefTest.Regen Constraints.Model Constraints.Detect Constraints.Serialise Constraints.Cli Rexpy.Coverage Rexpy.Wire Rexpy.Prng Rexpy.Regex RefTest.FrameCmp Gentest.DateLike Gentest.Quote Gentest.Script.
+From Tdda Require Import Base.Sexp RefTest.Argv RefTest.Tagged Serial.DateFmt RefTest.CheckStrings RefTest.Artefacts RefTest.Regen Constraints.Model Constraints.Detect Constraints.Serialise Constraints.Json Constraints.Cli Rexpy.Coverage Rexpy.Wire Rexpy.Prng Rexpy.Regex RefTest.FrameCmp Gentest.DateLike Gentest.Quote Gentest.Script.
 Import ListNotations.
 Open Scope Z_scope.
 
@@ -37,5 +37,7 @@ Definition dispatch (n : Z) (s : sexp) : sexp :=
   | 29 => oracle_entry s
   | 30 => regex_entry s
   | 31 => renderable_entry s
+  | 32 => json_print_entry s
+  | 33 => json_parse_entry s
   | _ => L [A (-1)]
   end.
